@@ -582,6 +582,85 @@ example :
     let a : AResp := { err := .none, rcode := 0, ans := [{ kind := '4', ttl := 60, owner := "0", ip := [8, 8, 8, 8] }] }
     (serve c q (some m) a).kind = .pass ∧ (serve c q (some m) a).aq = 0 ∧ (serve c q (some m) a).ad = true := by decide
 
+/-- **Pass-through is exact and costs no lookup.** On the synthesis path (every
+request gate open) a downstream reply that is NXDOMAIN — whatever its Answer
+section holds, alias chains included —, a DNSSEC-failure SERVFAIL, a cached
+failure (meta mark, or EDE 13 on a SERVFAIL) or a request-local failure goes to
+the client as the very same message, and no secondary lookup is issued. -/
+theorem failure_replies_pass_untouched (c : Cfg) (q : Query) (m : Down) (a : AResp)
+    (hg : gate c q = .wrap) (htc : m.tc = false) (hq : m.hasQ = true)
+    (hf : m.rcode = 3 ∨ isDNSSECFailure m = true ∨ isCachedFailureResponse m = true ∨
+      m.mark = .attempt ∨ m.mark = .other) :
+    serve c q (some m) a = passReply m ∧ (serve c q (some m) a).kind = .pass ∧ (serve c q (some m) a).aq = 0 ∧
+      (serve c q (some m) a).ans = m.ans ∧ (serve c q (some m) a).ad = m.ad := by
+  have hs : serve c q (some m) a = passReply m := by
+    unfold serve
+    simp only [hg]
+    unfold writeMsg dispatch
+    simp only [htc, hq, Bool.not_true, Bool.or_self, Bool.false_eq_true, if_false]
+    by_cases h3 : m.rcode = 3
+    · simp [h3]
+    · have h3' : (m.rcode == 3) = false := by simpa using h3
+      simp only [h3', Bool.false_eq_true, if_false]
+      cases hd : isDNSSECFailure m
+      · cases hc : isCachedFailureResponse m
+        · rcases hf with h | h | h | h | h
+          · exact absurd h h3
+          · rw [hd] at h; cases h
+          · rw [hc] at h; cases h
+          · simp [h]
+          · simp [h]
+        · simp
+      · simp
+  rw [hs]
+  exact ⟨rfl, rfl, rfl, rfl, rfl⟩
+
+-- NXDOMAIN behind an alias chain ("alias exists, target does not"), A lookup would have answered
+example :
+    let c : Cfg := { prefixes := [⟨⟨wkpIP, 96, true⟩, true⟩], exA := defaultExcludeAv4, exAAAA := defaultExcludeAAAA }
+    let q : Query := { client := [203, 0, 113, 5], internal := false, rd := true, cd := false, qclass := 1,
+                       qtype := 28, qname := "host.example.net.".toList, workExhausted := false, wire := true }
+    let m : Down := { rcode := 3, ad := true, tc := false, opt := true, hasQ := true, edes := [], mark := .none,
+                      ans := [{ kind := 'c', ttl := 60, owner := "0", target := "1" }], soas := [(60, 60)] }
+    let a : AResp := { err := .none, rcode := 0, ans := [{ kind := '4', ttl := 60, owner := "1", ip := [8, 8, 8, 8] }] }
+    (serve c q (some m) a).kind = .pass ∧ (serve c q (some m) a).aq = 0 ∧ (serve c q (some m) a).rcode = 3 ∧
+      (serve c q (some m) a).ad = true := by decide
+
+/-- **A response as basis (RFC 6147 §5.1.6).** When the reply is built from an
+A response without usable addresses, that response was error-free at the
+queryer level and either not NOERROR or without A records; the reply takes its
+rcode and Authority, carries only its CNAME/DNAME chain (no address record of
+any family) and has AD clear. -/
+theorem a_response_as_basis (c : Cfg) (q : Query) (down : Option Down) (a : AResp)
+    (h : (serve c q down a).kind = .abasis) :
+    a.err = .none ∧ (a.rcode ≠ 0 ∨ addrsOf a.ans = []) ∧ (serve c q down a).rcode = a.rcode ∧
+    (serve c q down a).ans = chainOf a.ans ∧ (serve c q down a).ad = false ∧ (serve c q down a).ns = a.ns := by
+  rcases serve_cases c q down a with hs | ⟨m, _, hs⟩ | ⟨_, addr, v4, _, _, hs⟩ | ⟨_, m, _, hs⟩
+  · rw [hs] at h; simp at h
+  · rw [hs] at h; simp [passReply] at h
+  · rw [hs] at h; exact absurd h (ptrReply_not_abasis q "0" v4 a)
+  · rw [hs] at h ⊢
+    rcases writeMsg_cases c q m a with ⟨_, hw⟩ | hw | hw | hw
+    · rw [hw] at h ⊢
+      exact synthesise_abasis c q _ _ a h
+    · rw [hw] at h; simp [passReply] at h
+    · rw [hw] at h; simp at h
+    · rw [hw] at h; simp at h
+
+example :
+    let c : Cfg := { prefixes := [⟨⟨wkpIP, 96, true⟩, true⟩], exA := defaultExcludeAv4, exAAAA := defaultExcludeAAAA }
+    let q : Query := { client := [203, 0, 113, 5], internal := false, rd := true, cd := false, qclass := 1,
+                       qtype := 28, qname := "host.example.net.".toList, workExhausted := false }
+    let m : Down := { rcode := 0, ad := true, tc := false, opt := true, hasQ := true, edes := [], mark := .none,
+                      ans := [], soas := [(60, 60)] }
+    let a : AResp := { err := .none, rcode := 3, ans := [{ kind := 'c', ttl := 60, owner := "0", target := "1" }] }
+    (serve c q (some m) a).kind = .abasis ∧ (serve c q (some m) a).rcode = 3 ∧ (serve c q (some m) a).ad = false := by
+  decide
+
+-- a /64 address with a non-zero reserved octet is not an embedding and is not translated
+example : ptrV4 { prefixes := [⟨⟨[0x20, 1, 0xd, 0xb8, 1, 0x22, 3, 0x44, 0, 0, 0, 0, 0, 0, 0, 0], 64, true⟩, false⟩] }
+    [0x20, 1, 0xd, 0xb8, 1, 0x22, 3, 0x44, 0xff, 0xc6, 0x33, 0x64, 0x4d, 0, 0, 0] = none := by decide
+
 /-! ## never AD -/
 
 /-- **A synthesised or AAAA-filtered reply never carries AD.** Stronger: every
@@ -702,6 +781,24 @@ theorem ptr_translation_sound (c : Cfg) (q : Query) (down : Option Down) (a : AR
     · rw [hw] at h; simp [passReply] at h
     · rw [hw] at h; simp at h
     · rw [hw] at h; simp at h
+
+/-- **Only RFC 6052 embeddings are translated.** A PTR translation happens only
+for an ip6.arpa name whose address IS the embedding of the returned IPv4
+address under a configured 16-byte prefix: a non-zero reserved octet, a
+non-zero suffix or a foreign prefix is never turned into an in-addr.arpa
+CNAME (for every legal length, /64 included). -/
+theorem ptr_only_for_embeddings (c : Cfg) (q : Query) (down : Option Down) (a : AResp)
+    (hpl : ∀ p ∈ c.prefixes, p.net.ip.length = 16) (h : (serve c q down a).kind = .ptr) :
+    ∃ addr v4 p, parseIP6ArpaName (canonical q.qname) = some addr ∧ p ∈ c.prefixes ∧
+      isLegal p.net.bits = true ∧ v4.length = 4 ∧ addr = embedIPv4 p.net.ip p.net.bits v4 ∧
+      bAt addr 8 = bAt p.net.ip 8 * (if p.net.bits = 96 then 1 else 0) := by
+  obtain ⟨_, _, _, _, _, addr, v4, hp, ⟨p, hpp, he, _⟩, _⟩ := ptr_translation_sound c q down a h
+  have hlen := parse_length _ _ hp
+  obtain ⟨hl, hv, hemb⟩ := embed_extract p.net.ip p.net.bits addr v4 (hpl p hpp) hlen he
+  refine ⟨addr, v4, p, hp, hpp, hl, hv, hemb, ?_⟩
+  rw [hemb, embed_eq _ _ _ hv hl]
+  obtain ⟨x0, x1, x2, x3, rfl⟩ := len4 v4 hv
+  rcases legal_cases _ hl with h' | h' | h' | h' | h' | h' <;> simp [h', rfc6052, bAt]
 
 /-- **Every embedded address is translated back.** If the address extracts
 under some configured (IPv6-masked, as every compiled prefix is) prefix to a
